@@ -116,6 +116,21 @@ def run(ctx, prop):
                                 outs(a)
                         for a in agents:
                             outs(a)                     # final observations released by the end-of-episode barrier
+                        # every network of the world, by the name the world itself gives it (re-labelled public networks keep
+                        # their host bits), is a legal ScanNetwork target: never refused as a bad request
+                        probe = agents[0]
+                        stp = g._agent_states.get(probe)
+                        if stp is not None:
+                            srcp = sorted(str(h) for h in stp.controlled_hosts)[0]
+                            for nn in sorted((str(k.ip), k.mask) for k in g._networks):
+                                d.send(probe, msg("ScanNetwork", source_host=ip(srcp), target_network={"ip": nn[0], "mask": nn[1]}))
+                                d.settle()
+                                o = outs(probe)
+                                stats["network_scans"] = stats.get("network_scans", 0) + 1
+                                if len(o) != 1 or "BAD_REQUEST" in o[0].get("status", ""):
+                                    ctx.violations.append({"key": "a network of the re-labelled world is refused as a scan target",
+                                                           "what": f"episode {episode + 1}: ScanNetwork of {nn[0]}/{nn[1]} (a network of the current world) was answered {[x.get('status') for x in o]} {[x.get('message') for x in o][:1]}",
+                                                           "replay": replay})
                         for a in agents:
                             d.send(a, msg("ResetGame"))
                             d.settle()
